@@ -4,7 +4,7 @@ from engines.symvc.discharge import run_spec
 
 def run(ctx):
     ctx.assume("exact arithmetic: 'residual bounded by conditioning times machine precision' is a rounding statement and is NOT covered; what is proved is that the only discrepancy is rounding (A x = b exactly over the reals on every path that reports success)",
-               "bounded in N, each N complete over all real matrices, right-hand sides and eps > 0: closed forms N = 1,2,3; generic LU (LUDecomp + TinyPermutation + back substitution) N = 2,3 (thorough: TinyMatrixSolve<4>, TinyMatrixInvert<3>); sizes 5..12, LUSolve on run-time sized matrices and QRDecomp are out of reach",
+               "bounded in N, each N complete over all real matrices, right-hand sides and eps > 0: closed forms N = 1,2,3; generic LU (LUDecomp + TinyPermutation + back substitution) N = 2,3; LUSolve 2x2 and 3x3; TinyMatrixInvert N = 1,2 (thorough: 3); TinyMatrixSolve<4> is written (VERIF_EXPERIMENTAL) but its path exploration did not finish in two hours and it is in neither tier; sizes 5..12, LUSolve on run-time sized matrices and QRDecomp are out of reach",
                "every pivot comparison and tolerance test is a path split; paths are explored exhaustively (syntactic paths, infeasible ones discarded by the reachability query)")
     srcs = " ".join("%s/src/%s" % (ctx.repo, f) for f in ("Math/LUException.cxx", "Math/MathException.cxx", "Exception/TFELException.cxx"))
     run_spec(ctx, flags=("-DVERIF_THOROUGH " if ctx.thorough else "") + srcs, expect_min=40, per_timeout=600 if ctx.thorough else 60)
